@@ -227,6 +227,10 @@ def run(ctx):
                             if p.kind == "call" and p.a == "essential_types::convert::word_from_bytes" and p.sub:
                                 q = M.peel(p.sub[0])
                                 pay_ok = q.kind == "try" and M.peel(q.sub[0]).kind == "call" and M.peel(q.sub[0]).a.endswith("parse_word_bytes")
+                    # the arm itself fails only when parse_word_bytes does
+                    arm_rows = [(v, at) for _, v, at in M.return_table(prog, f) if any(a == "is:%s(self)" % name for a in at)]
+                    extra = [(v[:60], at[-1][:80]) for v, at in arm_rows if not (v.startswith("Result::Ok{") or (v == "<propagate error>" and re.search(r"^err\(.*parse_word_bytes\(", at[-1])))]
+                    ctx.ob("O5", "%s::%s:T4-fails-only-when-the-immediate-is-short" % (g, name), len(arm_rows) == 2 and not extra, arm.where(), "returns of the arm: %s" % [(v[:40], at[-1][:60]) for v, at in arm_rows], f)
                     ctx.ob("O5", "%s::%s:T4" % (g, name), ok and len(pw) == 1 and len(wf) == 1 and neb and pay_ok, arm.where(),
                            "builds %s; parse_word_bytes calls=%d word_from_bytes calls=%d NotEnoughBytesError=%s payload-ok=%s" % (built, len(pw), len(wf), neb, pay_ok), f)
                     for h in prog.find_fns(re.escape(f.path) + r"::parse_word_bytes$"):
@@ -376,6 +380,11 @@ def check_parse_word_bytes(ctx, prog, h, g, name, n):
                 order_ok = ids == call_dests and len(set(ids)) == n
     ctx.ob("O5", "%s::%s:immediate-bytes" % (g, name), len(nexts) == n and order_ok, "%s:%d" % (h.file, h.line),
            "%d next() calls for %d immediate bytes; in-order=%s" % (len(nexts), n, order_ok), h)
+    # "not enough bytes" is decided only by the iterator running dry (never by a size hint or another pre-check)
+    rows = M.return_table(prog, h)
+    bad = [(v[:60], (at[-1] if at else "")[:80]) for _, v, at in rows
+           if not ((v == "<propagate error>" and at and re.match(r"^err\(std::iter::Iterator::next\(\w+\)\)$", at[-1])) or (v.startswith("Option::Some{array{") and all(re.match(r"^ok\(std::iter::Iterator::next\(\w+\)\)$", a) for a in at)))]
+    ctx.ob("O5", "%s::%s:short-input-detected-only-by-next()=None" % (g, name), not bad and len(rows) == n + 1, "%s:%d" % (h.file, h.line), "other returns: %s" % bad, h)
 
 
 def check_streaming(ctx, prog):
